@@ -96,6 +96,8 @@ def _build(case):
 def _new_model(case, n_jobs):
     cls = _mod.PiecewiseClassifier if case["classifier"] else _mod.PiecewiseRegressor
     kw = dict(binner=_binner(case["binner"], case["classifier"]), estimator=_estimator(case["estimator"], case["classifier"]), n_jobs=n_jobs)
+    if case.get("verbose"):
+        kw["verbose"] = True             # progress messages (silenced by the harness) are all it may change
     if case["classifier"]:
         kw["random_state"] = case["random_state"]
     return cls(**kw)
@@ -137,8 +139,15 @@ def check(case):
         yin = pandas.Series(y, index=idx)
         win = None if w is None else pandas.Series(w, index=idx)
     facts["ykind"] = case.get("ykind", "array")
+    import contextlib
+    import io
+    quiet = contextlib.ExitStack()
+    if case.get("verbose"):
+        quiet.enter_context(contextlib.redirect_stdout(io.StringIO()))
+        quiet.enter_context(contextlib.redirect_stderr(io.StringIO()))
     try:
-        r = m.fit(Xin, yin, sample_weight=win)
+        with quiet:
+            r = m.fit(Xin, yin, sample_weight=win)
     except ValueError as e:
         if w is not None and (w == 0).any() and "at least one non-zero" in str(e):
             # a bucket (or a discretizer) whose rows all weigh zero: the inner scikit-learn estimator refuses such a training set itself
@@ -263,7 +272,8 @@ def check(case):
     if case["n_jobs"] not in (None, 1):
         np.random.seed(case["seed"])
         m1 = _new_model(case, None)
-        m1.fit(Xin, yin, sample_weight=win)
+        with contextlib.redirect_stdout(io.StringIO()), contextlib.redirect_stderr(io.StringIO()):
+            m1.fit(Xin, yin, sample_weight=win)
         for meth in _methods(case, m):
             a, b = np.asarray(getattr(m, meth)(Qin)), np.asarray(getattr(m1, meth)(Qin))
             require(a.shape == b.shape and np.array_equal(a, b), "n_jobs:" + meth,
@@ -272,7 +282,7 @@ def check(case):
     labels = ["clf" if classifier else "reg", "binner=" + case["binner"]["kind"], "est=" + case["estimator"]["kind"],
               "buckets=1" if nb == 1 else ("buckets<=4" if nb <= 4 else "buckets>4"), "unseen-bucket" if unseen else "all-seen",
               "weights" if w is not None else "no-weights", "n_jobs=%s" % case["n_jobs"], "missing-class" if missing_class else "no-missing-class",
-              "train:" + facts["xkind"], "query:" + facts["qkind"], "y:" + facts["ykind"], "two-callers" if case.get("two_callers") else "one-caller", "zero-weights" if (w is not None and (w == 0).any()) else "no-zero-weight"]
+              "train:" + facts["xkind"], "query:" + facts["qkind"], "y:" + facts["ykind"], "two-callers" if case.get("two_callers") else "one-caller", "verbose" if case.get("verbose") else "silent", "zero-weights" if (w is not None and (w == 0).any()) else "no-zero-weight"]
     return Outcome(labels, nb >= 2 and (unseen or missing_class or w is not None or case["n_jobs"] not in (None, 1)))
 
 
@@ -309,7 +319,7 @@ def _cases(draw, tier="quick"):
                 binner=binner, estimator=est, n_jobs=draw(st.sampled_from([None, 1, 2, 2, 4])), random_state=draw(st.one_of(st.none(), st.integers(0, 99))),
                 seed=draw(st.integers(0, 2**31 - 2)), Q=Q, xkind=draw(st.sampled_from(["array", "array", "frame"])),
                 qkind=draw(st.sampled_from(["float64", "float64", "float32", "int64", "frame"])),
-                two_callers=draw(st.integers(0, 3)) == 0,
+                two_callers=draw(st.integers(0, 3)) == 0, verbose=draw(st.integers(0, 3)) == 0,
                 ykind=draw(st.sampled_from(["array", "array", "series"])), zero_w=draw(st.lists(st.integers(0, 49), max_size=4)) if draw(st.integers(0, 3)) == 0 else [], index_perm=draw(st.lists(st.integers(0, 10**6), min_size=50, max_size=50)))
 
 
